@@ -76,12 +76,16 @@ type Event struct {
 }
 
 type Case struct {
-	Kind        string   `json:"kind"` // gate | refresh | prov | attr
+	Kind        string   `json:"kind"` // gate | refresh | prov | provseq | attr | hosts
 	Topo        TopoSpec `json:"topo"` // gate: the gate's topology; refresh: the initial topology
 	Probe       int      `json:"probe,omitempty"`
 	StoreBroken bool     `json:"store_broken,omitempty"`
 	Events      []Event  `json:"events,omitempty"`
 	Hash        string   `json:"hash,omitempty"` // prov
+	// refresh: the relayer starts without a topology file, as app.go does: the initial topology is
+	// what the (long-lived) provider returns for the unchecked start-up call NetworkTopology("") when
+	// the URL serves these bytes (hex); they encode Topo
+	StartBody string `json:"start_body,omitempty"`
 	Remote      int      `json:"remote,omitempty"`
 	ClaimKey    string   `json:"claim_key,omitempty"`
 	ClaimVal    string   `json:"claim_val,omitempty"` // raw JSON value
@@ -112,7 +116,15 @@ type StepObs struct {
 	View   View     `json:"view"`
 	Oracle *TopoObs `json:"expected_topology"` // reference decrypt+parse of the fetched body
 }
+type ProvObs struct {
+	Code   int      `json:"code"` // 0 topology, 1 error, 2 panic
+	Panic  string   `json:"panic,omitempty"`
+	Topo   *TopoObs `json:"topo,omitempty"`
+	Oracle *TopoObs `json:"expected_topology,omitempty"`
+}
 type Obs struct {
+	Calls     []ProvObs `json:"calls,omitempty"`
+	StartNote string    `json:"start_note,omitempty"`
 	Bools     []bool    `json:"bools,omitempty"`
 	Init      *View     `json:"init,omitempty"`
 	Steps     []StepObs `json:"steps,omitempty"`
@@ -332,8 +344,35 @@ func runRefresh(c Case) Obs {
 	if c.StoreBroken {
 		path = dir // a directory: StoreTopology fails, Topology() fails
 	}
+	// ONE provider, store, gate, host, handler for the whole sequence, wired as in app.go
 	store := topology.NewTopologyStore(path)
+	f := &fetcher{}
+	prov, err := topology.NewNetworkTopologyProvider(relayer.TopologyConfiguration{Url: "http://topology.invalid", EncryptionKey: aesKey}, f)
+	if err != nil {
+		panic(err)
+	}
 	init := netTopo(c.Topo)
+	startNote := ""
+	if c.StartBody != "" {
+		// app.go: no topology file yet -> topologyProvider.NetworkTopology("") -> StoreTopology
+		body, err := hex.DecodeString(c.StartBody)
+		if err != nil {
+			panic("case start_body is not hex")
+		}
+		f.body = body
+		func() {
+			defer func() {
+				if r := recover(); r != nil {
+					startNote = "start-up fetch panicked: " + fmt.Sprint(r)
+				}
+			}()
+			if nt, err := prov.NetworkTopology(""); err == nil {
+				init = nt // what is observed below as the initial state must be c.Topo
+			} else {
+				startNote = "start-up fetch refused"
+			}
+		}()
+	}
 	if !c.StoreBroken {
 		if err := store.StoreTopology(init); err != nil {
 			panic(err)
@@ -342,12 +381,6 @@ func runRefresh(c Case) Obs {
 	cg := p2p.NewConnectionGate(init)
 	h := p2pfakes.NewHost(pid(nFamily + 1))
 	p2p.LoadPeers(h, init.Peers)
-
-	f := &fetcher{}
-	prov, err := topology.NewNetworkTopologyProvider(relayer.TopologyConfiguration{Url: "http://topology.invalid", EncryptionKey: aesKey}, f)
-	if err != nil {
-		panic(err)
-	}
 	l := &listener{}
 	cm := nopComm{}
 	coord := tss.NewCoordinator(h, cm, elector.NewCoordinatorElectorFactory(h, relayer.BullyConfig{}))
@@ -357,7 +390,7 @@ func runRefresh(c Case) Obs {
 	handler := eventHandlers.NewRefreshEventHandler(zerolog.Nop().With(), prov, store, l, coord, h, cm, cg, nopStorer{}, nil, common.Address{})
 
 	iv := takeView(store, cg, h)
-	o := Obs{Init: &iv}
+	o := Obs{Init: &iv, StartNote: startNote}
 	for _, ev := range c.Events {
 		body, err := hex.DecodeString(ev.BodyHex)
 		if err != nil {
@@ -422,6 +455,37 @@ func run(c Case) Obs {
 			}
 			o.Topo = obsTopo(t)
 		}()
+		return o
+	case "provseq":
+		// a history of calls through ONE provider; Hashes[0] of every event is the hash demanded ("" = start-up call)
+		f := &fetcher{}
+		prov, err := topology.NewNetworkTopologyProvider(relayer.TopologyConfiguration{Url: "u", EncryptionKey: aesKey}, f)
+		if err != nil {
+			panic(err)
+		}
+		o := Obs{}
+		for _, ev := range c.Events {
+			body, err := hex.DecodeString(ev.BodyHex)
+			if err != nil {
+				panic("case body_hex is not hex")
+			}
+			f.body, f.fail = body, ev.FetchFail
+			po := ProvObs{Oracle: expected(body)}
+			func() {
+				defer func() {
+					if r := recover(); r != nil {
+						po.Code, po.Panic = 2, fmt.Sprint(r)
+					}
+				}()
+				t, err := prov.NetworkTopology(ev.Hashes[0])
+				if err != nil {
+					po.Code = 1
+					return
+				}
+				po.Topo = obsTopo(t)
+			}()
+			o.Calls = append(o.Calls, po)
+		}
 		return o
 	case "attr":
 		h := p2pfakes.NewHost(pid(0))
@@ -681,11 +745,251 @@ func genEvent(r *vgen.Rng) Event {
 	}
 }
 
+// ---- histories through the long-lived objects: what was fetched / adopted earlier must not matter ----
+
+// an earlier event of the sequence: the raw bytes served, the ciphertext's own hash, whether that
+// ciphertext stands for a valid topology (and which), the hash that was announced with it
+type served struct {
+	body      []byte
+	own       string
+	valid     bool
+	topo      TopoSpec
+	announced string
+}
+
+func genuine(r *vgen.Rng) (Event, served) {
+	t := genTopo(r, 1)
+	ct := encrypt(r.Bytes(16), topoPlain(t, strconv.Itoa(t.Threshold)))
+	body := hexBody(ct)
+	if r.Chance(1, 8) {
+		body = append(body, '\n')
+	}
+	return mkEvent("genuine", body, sha(ct)), served{body: body, own: sha(ct), valid: true, topo: t, announced: sha(ct)}
+}
+
+func servedOf(ev Event) served {
+	body, _ := hex.DecodeString(ev.BodyHex)
+	sv := served{body: body}
+	if ct, err := hex.DecodeString(strings.TrimSuffix(string(body), "\n")); err == nil {
+		sv.own = sha(ct)
+	}
+	sv.valid = expected(body) != nil
+	if len(ev.Hashes) > 0 {
+		sv.announced = ev.Hashes[len(ev.Hashes)-1]
+	}
+	return sv
+}
+
+// the next event of a history: a fresh one, or one that re-serves / re-announces something earlier.
+// cur = index in pool of the body whose topology is the current one (-1 unknown): bodies other than
+// that one are preferred for replays, so that a wrong adoption is visible.
+func nextEvent(r *vgen.Rng, pool []served, cur int) (Event, served) {
+	if len(pool) == 0 || r.Chance(1, 4) {
+		if r.Chance(1, 2) {
+			return genuine(r)
+		}
+		ev := genEvent(r)
+		return ev, servedOf(ev)
+	}
+	pick := func() served {
+		for k := 0; k < 4; k++ {
+			i := r.Intn(len(pool))
+			if i != cur && pool[i].valid {
+				return pool[i]
+			}
+		}
+		return pool[r.Intn(len(pool))]
+	}
+	old := pick()
+	other := pool[r.Intn(len(pool))]
+	var ev Event
+	switch r.Intn(14) {
+	case 12:
+		ev = mkEvent("fetch fails; the hash of an earlier body is announced", old.body, old.own)
+		ev.FetchFail = true
+	case 13:
+		cut := old.body
+		if len(cut) > 1 {
+			cut = cut[:(len(cut)/2)|1] // odd length: not hex
+		}
+		bad := vgen.Pick(r, [][]byte{[]byte("not hex at all"), cut, append([]byte("zz"), old.body...), {}})
+		ev = mkEvent("no usable body (not hex / cut / empty); the hash of an earlier body is announced", bad, old.own)
+	case 0, 1, 2:
+		ev = mkEvent("an earlier body again, under a hash that is not its own", old.body, sha(r.Bytes(8)))
+	case 3:
+		ev = mkEvent("an earlier body again, under the hash announced with another earlier event", old.body, other.announced)
+	case 4:
+		ev = mkEvent("an earlier body again, under another earlier body's hash", old.body, other.own)
+	case 5, 6:
+		ev = mkEvent("an earlier body again, under its own hash", old.body, old.own)
+	case 7:
+		ev = mkEvent("an earlier body again, empty hash", old.body, "")
+	case 8:
+		ev = mkEvent("an earlier body again, two events: right hash then a wrong one", old.body, old.own, sha(r.Bytes(8)))
+	case 9:
+		// something new under a hash that was announced (and accepted) before
+		nev, _ := genuine(r)
+		nev.Hashes = []string{old.announced}
+		nev.Note = "a new valid topology under an earlier announced hash"
+		ev = nev
+	case 10:
+		// the same topology re-encrypted (other IV, other ciphertext) under the earlier ciphertext's hash
+		t := old.topo
+		if !old.valid || len(t.Peers) == 0 {
+			t = genTopo(r, 1)
+		}
+		ct := encrypt(r.Bytes(16), topoPlain(t, strconv.Itoa(t.Threshold)))
+		ev = mkEvent("an earlier topology re-encrypted, under the earlier ciphertext's hash", hexBody(ct), old.own)
+	default:
+		b := append([]byte{}, old.body...)
+		if len(b) > 40 {
+			i := 32 + r.Intn(len(b)-40)
+			if b[i] == '0' {
+				b[i] = '1'
+			} else {
+				b[i] = '0'
+			}
+		}
+		ev = mkEvent("an earlier body with one hex digit changed, under the original's hash", b, old.own)
+	}
+	sv := servedOf(ev)
+	sv.topo = old.topo
+	return ev, sv
+}
+
+// would the event be adopted by the specification? (to keep track of the current topology's body)
+func adopts(ev Event, sv served) bool {
+	return len(ev.Hashes) > 0 && !ev.FetchFail && sv.valid && sv.announced != "" && sv.announced == sv.own
+}
+
+func genHistory(r *vgen.Rng, i int) Case {
+	c := Case{Kind: "refresh", Topo: genTopo(r, 1), StoreBroken: r.Chance(1, 20)}
+	var pool []served
+	cur := -1
+	if r.Chance(1, 2) {
+		// start-up fetch through the same provider (hash "", unchecked)
+		ct := encrypt(r.Bytes(16), topoPlain(c.Topo, strconv.Itoa(c.Topo.Threshold)))
+		c.StartBody = hex.EncodeToString(hexBody(ct))
+		pool = append(pool, served{body: hexBody(ct), own: sha(ct), valid: true, topo: c.Topo})
+		cur = 0
+	}
+	push := func(ev Event, sv served) {
+		c.Events = append(c.Events, ev)
+		pool = append(pool, sv)
+		if adopts(ev, sv) && !c.StoreBroken {
+			cur = len(pool) - 1
+			for k, p := range pool {
+				if bytes.Equal(p.body, sv.body) {
+					cur = k
+					break
+				}
+			}
+		}
+	}
+	wrong := func(sv served, note string) Event { return mkEvent(note, sv.body, sha(r.Bytes(8))) }
+	switch i % 8 {
+	case 0: // adopt A, adopt B, then A again under another hash
+		ea, a := genuine(r)
+		eb, b := genuine(r)
+		push(ea, a)
+		push(eb, b)
+		push(wrong(a, "the first topology's body again, under a hash that is not its own"), a)
+	case 1: // A, B, A, B genuinely, then each once more under a wrong hash
+		ea, a := genuine(r)
+		eb, b := genuine(r)
+		push(ea, a)
+		push(eb, b)
+		push(ea, a)
+		push(eb, b)
+		push(wrong(a, "alternating topologies, then the first again under a hash that is not its own"), a)
+	case 2: // the same body twice, then another, then the first under the second's hash
+		ea, a := genuine(r)
+		eb, b := genuine(r)
+		push(ea, a)
+		push(ea, a)
+		push(eb, b)
+		push(mkEvent("the first body again under the second one's hash", a.body, b.own), a)
+	case 3: // rejected events in between
+		ea, a := genuine(r)
+		eb, b := genuine(r)
+		push(ea, a)
+		x := genEvent(r)
+		push(x, servedOf(x))
+		push(eb, b)
+		push(wrong(b, "the current body under a hash that is not its own"), b)
+		push(wrong(a, "the first body again, under a hash that is not its own"), a)
+	case 5: // two adoptions, then events that must all be rejected although they name earlier hashes
+		ea, a := genuine(r)
+		eb, b := genuine(r)
+		push(ea, a)
+		push(eb, b)
+		for k := 0; k < 3; k++ {
+			var ev Event
+			switch r.Intn(5) {
+			case 0:
+				ev = mkEvent("fetch fails; the first topology's hash is announced", a.body, a.own)
+				ev.FetchFail = true
+			case 1:
+				ev = mkEvent("fetch fails; the current topology's hash is announced", b.body, b.own)
+				ev.FetchFail = true
+			case 2:
+				ev = mkEvent("body is not hex; the first topology's hash is announced", []byte("not hex at all"), a.own)
+			case 3:
+				ev = mkEvent("empty body; the first topology's hash is announced", []byte{}, a.own)
+			default:
+				ev = mkEvent("the first body cut in half; its hash is announced", a.body[:(len(a.body)/4)*2], a.own)
+			}
+			push(ev, servedOf(ev))
+		}
+	case 4: // start-up body replayed after one genuine refresh
+		if c.StartBody == "" {
+			ct := encrypt(r.Bytes(16), topoPlain(c.Topo, strconv.Itoa(c.Topo.Threshold)))
+			c.StartBody = hex.EncodeToString(hexBody(ct))
+			pool = append(pool, served{body: hexBody(ct), own: sha(ct), valid: true, topo: c.Topo})
+		}
+		eb, b := genuine(r)
+		push(eb, b)
+		push(wrong(pool[0], "the start-up body again, under a hash that is not its own"), pool[0])
+	default:
+		n := r.Range(2, 6)
+		for j := 0; j < n; j++ {
+			ev, sv := nextEvent(r, pool, cur)
+			push(ev, sv)
+		}
+	}
+	if len(c.Events) > 6 {
+		c.Events = c.Events[:6]
+	}
+	return c
+}
+
+// calls through ONE provider, the hash demanded being any of: the body's own, a wrong one, "" (start-up)
+func genProvSeq(r *vgen.Rng) Case {
+	c := Case{Kind: "provseq"}
+	var pool []served
+	n := r.Range(2, 6)
+	for j := 0; j < n; j++ {
+		ev, sv := nextEvent(r, pool, -1)
+		h := ""
+		if len(ev.Hashes) > 0 {
+			h = ev.Hashes[len(ev.Hashes)-1]
+		}
+		if r.Chance(1, 5) {
+			h = ""
+		}
+		ev.Hashes = []string{h}
+		sv.announced = sv.own // through the provider alone a body is "accepted" under "" as well
+		c.Events = append(c.Events, ev)
+		pool = append(pool, sv)
+	}
+	return c
+}
+
 func gen(r *vgen.Rng, tier string) []Case {
 	var out []Case
-	nseq, nprov := 150, 60
+	nseq, nprov, nhist, npseq := 100, 60, 80, 30
 	if tier == "thorough" {
-		nseq, nprov = 3000, 1000
+		nseq, nprov, nhist, npseq = 3000, 1000, 3000, 1000
 	}
 	// gate: every probe against a few topologies (incl. empty and single)
 	topos := []TopoSpec{{Peers: []PeerSpec{}, Threshold: 1}, genTopo(r, 1), genTopo(r, 3), genTopo(r, 5)}
@@ -746,6 +1050,25 @@ func gen(r *vgen.Rng, tier string) []Case {
 			c.Events = append(c.Events, genEvent(r))
 		}
 		out = append(out, c)
+	}
+	// every way of writing the right hash wrongly, on a genuine body (each run, not sampled)
+	{
+		t := genTopo(r, 2)
+		ct := encrypt(r.Bytes(16), topoPlain(t, strconv.Itoa(t.Threshold)))
+		h := sha(ct)
+		for _, bad := range []string{h[:62], h + " ", " " + h, "0x" + h, "0X" + h, "0x", "0X", h[:63] + "g", strings.ToUpper(h),
+			h + "\n", "sha256:" + h, h + h, h[1:], "0" + h, strings.Repeat("0", 64)} {
+			ev := mkEvent("the right hash written wrongly: "+strconv.Quote(bad), hexBody(ct), bad)
+			out = append(out, Case{Kind: "refresh", Topo: genTopo(r, 1), Events: []Event{ev}})
+			out = append(out, Case{Kind: "prov", Hash: bad, Events: []Event{ev}})
+		}
+	}
+	// histories: later events re-serve / re-announce what was fetched or adopted earlier
+	for i := 0; i < nhist; i++ {
+		out = append(out, genHistory(r, i))
+	}
+	for i := 0; i < npseq; i++ {
+		out = append(out, genProvSeq(r))
 	}
 	return out
 }
@@ -820,6 +1143,14 @@ func coq(c Case, o Obs) string {
 		ev := c.Events[0]
 		return "Prov " + cstr(c.Hash) + " " + vgen.Bool(!ev.FetchFail) + " " + coqBody(ev.BodyHex) + " " +
 			coqOptTopo(o.Oracle) + " " + vgen.N(uint64(o.Code)) + " " + coqOptTopo(o.Topo)
+	case "provseq":
+		calls := make([]string, len(c.Events))
+		for i, ev := range c.Events {
+			po := o.Calls[i]
+			calls[i] = "(mk_call " + cstr(ev.Hashes[0]) + " " + vgen.Bool(!ev.FetchFail) + " " + coqBody(ev.BodyHex) + " " +
+				coqOptTopo(po.Oracle) + " " + vgen.N(uint64(po.Code)) + " " + coqOptTopo(po.Topo) + ")"
+		}
+		return "ProvSeq " + vgen.List(calls)
 	case "attr":
 		claimed := "None"
 		if c.ClaimKey != "" {
@@ -872,6 +1203,9 @@ func main() {
 				if c.StoreBroken {
 					return "refresh-store-broken"
 				}
+				if c.StartBody != "" {
+					return fmt.Sprintf("refresh-startup-%d", len(c.Events))
+				}
 				return fmt.Sprintf("refresh-%d", len(c.Events))
 			}
 			return c.Kind
@@ -886,6 +1220,13 @@ func main() {
 				return o.Oracle != nil || o.Code == 2
 			case "hosts":
 				return true
+			case "provseq":
+				for _, po := range o.Calls {
+					if po.Oracle != nil || po.Code == 2 {
+						return true
+					}
+				}
+				return false
 			}
 			// a sequence is non-trivial if some event carries a decodable ciphertext of at least one block
 			for _, s := range o.Steps {
@@ -895,6 +1236,6 @@ func main() {
 			}
 			return false
 		},
-		Rule: "hosts: three real libp2p hosts built by p2p.NewHost on 127.0.0.1 (dialer, target, membership subset of the shared topology), connection result and sender of one broadcast; gate: every probe peer (8 possible members, 2 outsiders) against empty/1/3/5-peer topologies; attr: sender-claiming JSON members (From/from/FROM/... x string/number/null/object) before or after the real fields; prov and refresh: events drawn from 30 classes (genuine; newline / upper-case body; wrong, upper-case, empty, truncated, padded hash; bit flips at 16-byte strides and truncations 0,1,15,16,17,31,32,33,.. with the original or the recomputed hash; another topology's ciphertext; non-hex bodies; garbage with its own hash; invalid thresholds, peer addresses, documents with correct hash; base-0 thresholds; address-less peers; several events per range; no event; fetch failure; duplicated peers), refresh sequences of 1..6 events from a random initial topology, 1 in 12 with an unwritable topology file; distinct = distinct input JSON; non-trivial = gate on a non-empty topology, a claimed sender, a body that decrypts to a valid topology or panics",
+		Rule: "hosts: three real libp2p hosts built by p2p.NewHost on 127.0.0.1 (dialer, target, membership subset of the shared topology), connection result and sender of one broadcast; gate: every probe peer (8 possible members, 2 outsiders) against empty/1/3/5-peer topologies; attr: sender-claiming JSON members (From/from/FROM/... x string/number/null/object) before or after the real fields; prov and refresh: events drawn from 30 classes (genuine; newline / upper-case body; wrong, upper-case, empty, truncated, padded hash; bit flips at 16-byte strides and truncations 0,1,15,16,17,31,32,33,.. with the original or the recomputed hash; another topology's ciphertext; non-hex bodies; garbage with its own hash; invalid thresholds, peer addresses, documents with correct hash; base-0 thresholds; address-less peers; several events per range; no event; fetch failure; duplicated peers), refresh sequences of 1..6 events from a random initial topology, 1 in 12 with an unwritable topology file; histories through ONE provider / handler / store / gate per sequence (half of them starting with the unchecked start-up fetch through that provider): fixed patterns (A, B, A under a foreign hash; A, B, A, B, A under a foreign hash; A, A, B, A under B's hash; rejected events in between; start-up body replayed; two adoptions then fetch failures / unusable bodies announcing earlier hashes) and random histories whose later events re-serve earlier bodies (foreign hash, another event's announced hash, another body's hash, own hash, empty hash, right-then-wrong announcements), re-announce an accepted hash with a new valid body, re-encrypt an earlier topology, change one digit of an earlier body, fail the fetch or serve an unusable body while announcing an earlier hash; provseq: 2..6 direct NetworkTopology calls through one provider over the same event kinds with the hash own / foreign / earlier / empty; 15 wrong spellings of the right hash (cut, padded, 0x / 0X prefixed, bare 0x, upper case, doubled, shifted, newline, scheme prefix, zeros) on a genuine body, through the handler and the provider; distinct = distinct input JSON; non-trivial = gate on a non-empty topology, a claimed sender, a body that decrypts to a valid topology or panics",
 	})
 }
